@@ -584,6 +584,19 @@ impl VLog {
 		Ok(vlog)
 	}
 
+	/// Re-reads the value-log directory after its files were replaced underneath
+	/// this instance (restore from a checkpoint): the active writer, the file
+	/// registry and the cached read handles all refer to the files of the
+	/// discarded timeline and must be rebuilt from what is on disk now.
+	pub(crate) fn reload_after_restore(&self) -> Result<()> {
+		*self.writer.write() = None;
+		self.files_map.write().clear();
+		self.file_handles.write().clear();
+		self.next_file_id.store(1, Ordering::SeqCst);
+		self.active_writer_id.store(0, Ordering::SeqCst);
+		self.prefill_file_handles()
+	}
+
 	/// Appends a key+value pair to the log and returns a ValuePointer
 	pub(crate) fn append(&self, key: &[u8], value: &[u8]) -> Result<ValuePointer> {
 		// Ensure we have a writer
